@@ -76,17 +76,21 @@ func LocOf(t ThreadSpec) int {
 	if !hasMap(strings.ToLower(t.Name)) {
 		return 0
 	}
-	in := func(ip string) bool { return strings.HasPrefix(ip, "192.0.2.") }
-	if t.Edns && t.ECS != "" {
-		if in(t.ECS) {
+	loc := func(ip string) int {
+		switch {
+		case strings.HasPrefix(ip, "192.0.2."):
 			return 2
+		case strings.HasPrefix(ip, "198.18.0."):
+			return 0x003a // location id bytes \000 \072
+		case strings.HasPrefix(ip, "203.0.113."):
+			return 0x013a // location id bytes \001 \072
 		}
 		return 1
 	}
-	if in(t.IP) {
-		return 2
+	if t.Edns && t.ECS != "" {
+		return loc(t.ECS)
 	}
-	return 1
+	return loc(t.IP)
 }
 
 // Derive fills Keys and Shapes.
